@@ -11,6 +11,7 @@ From Coercion.Engine Require Import Shape Event Action ChecksRun Seq Block Final
 From Coercion.C04 Require Import InvGlobal.
 From Coercion.C06 Require Import Groups Steps.
 From Coercion.Resume Require Import Resume ResumeLemmas ReleaseProofs Frame NoReexec.
+From Coercion.Chain Require Import ResumedInv.
 From Coercion.C10x Require Import Cells GroupInv MemInv.
 
 Notation W := p_windows.
@@ -359,4 +360,140 @@ Proof.
   - apply WAR_reps.
   - intros r0 e r1. apply WAR_rhandle.
   - intros r0 e r1. apply WAR_flush.
+Qed.
+
+(* ------------------------------------------------------------------ finalStates reads plan groups and blocks only *)
+Lemma existsb_ext_in {A} (f g : A -> bool) l : (forall x, In x l -> f x = g x) -> existsb f l = existsb g l.
+Proof.
+  induction l as [|x l IH]; intro H; simpl; [reflexivity|].
+  rewrite (H x (or_introl eq_refl)), IH; [reflexivity|]. intros y Hy. apply H. now right.
+Qed.
+Lemma forallb_ext_in' {A} (f g : A -> bool) l : (forall x, In x l -> f x = g x) -> forallb f l = forallb g l.
+Proof.
+  induction l as [|x l IH]; intro H; simpl; [reflexivity|].
+  rewrite (H x (or_introl eq_refl)), IH; [reflexivity|]. intros y Hy. apply H. now right.
+Qed.
+
+Lemma final_ext sh (st st' : obj -> status) :
+  (forall g, st' (OChecks SPlan g) = st (OChecks SPlan g)) -> (forall b, st' (OBlock b) = st (OBlock b)) ->
+  final sh st' = final sh st.
+Proof.
+  intros Hg Hb. unfold final, examine_bypass, final_blocks, any_block_failed, all_blocks_completed.
+  assert (Ex : forall gs, examine sh st' gs = examine sh st gs).
+  { induction gs as [|g gs IH]; simpl; [reflexivity|]. now rewrite Hg, IH. }
+  rewrite !Ex, Hg.
+  rewrite (existsb_ext_in (fun b => status_eqb (st' (OBlock b)) Failed) (fun b => status_eqb (st (OBlock b)) Failed)) by (intros b _; now rewrite Hb).
+  rewrite (forallb_ext_in' (fun b => status_eqb (st' (OBlock b)) Completed) (fun b => status_eqb (st (OBlock b)) Completed)) by (intros b _; now rewrite Hb).
+  reflexivity.
+Qed.
+
+(* ------------------------------------------------------------------ at End nothing the verdict depends on is written *)
+Lemma W_end_idle s : W s -> s_ph s = PEnd -> forall g, g_is_idle (tget (s_g s) g) = true.
+Proof.
+  intros Hw Hp g. apply W_alt in Hw as [Hg Ht].
+  assert (Hnl : thr_live (s_thr s) = false) by (destruct (thr_live (s_thr s)) eqn:L; [destruct (Ht eq_refl) as [Q|[Q|Q]]; congruence|reflexivity]).
+  destruct (Hg g) as [Q|Q]; [exact Q|]. unfold wopen in Q. rewrite Hp, Hnl in Q. destruct g; intuition congruence.
+Qed.
+
+Lemma end_write_inputs sh s o stt n ok r s' :
+  h_write sh s o stt n ok r = Some s' -> s_ph s = PEnd -> (forall g, g_is_idle (tget (s_g s) g) = true) ->
+  (forall g, o <> OChecks SPlan g) /\ (forall b, o <> OBlock b).
+Proof.
+  intros H Hp Hi. unfold h_write in H. destruct (negb (obj_in_shape sh o)); [discriminate|]. split.
+  - intros g ->. destruct n; [|discriminate]. destruct ok; [discriminate|].
+    apply option_map_some in H as (s1 & H & _). cbn [h_write_obj] in H.
+    assert (Hno : g_verdict (tget (s_g s) g) stt = None).
+    { specialize (Hi g). unfold g_verdict, g_close. destruct (tget (s_g s) g); [reflexivity|discriminate]. }
+    destruct stt; try discriminate; unfold p_chk_verdict in H; rewrite Hno in H; discriminate.
+  - intros b ->. destruct n; [|discriminate]. destruct ok; [discriminate|].
+    apply option_map_some in H as (s1 & H & _). cbn [h_write_obj] in H.
+    unfold cur_block in H. rewrite Hp in H. simpl in H. discriminate.
+Qed.
+
+(* ------------------------------------------------------------------ PL *)
+Definition PL (sh : shape) (r : rst) : Prop :=
+  is_terminal (ist (s_img (r_s r)) OPlan) = true ->
+  (s_ph (r_s r) = PEnd \/ s_ph (r_s r) = PReleased) /\ mst (mget r) OPlan = fst (final sh (mst (mget r))).
+
+Lemma mst_upd m o c o' : mst (mupd m o c) o' = if obj_eqb o o' then c_st c else mst m o'.
+Proof. unfold mst, mupd. destruct (obj_eqb o o'); reflexivity. Qed.
+
+Lemma final_mupd sh m o c :
+  (forall g, o <> OChecks SPlan g) -> (forall b, o <> OBlock b) -> final sh (mst (mupd m o c)) = final sh (mst m).
+Proof.
+  intros H1 H2. apply final_ext.
+  - intro g. unfold mst. rewrite mupd_other; [reflexivity|apply H1].
+  - intro b. unfold mst. rewrite mupd_other; [reflexivity|apply H2].
+Qed.
+
+Lemma mget_ext_final sh r r' : (forall o, mget r' o = mget r o) -> final sh (mst (mget r')) = final sh (mst (mget r)).
+Proof. intro H. apply final_ext; intros; unfold mst; now rewrite H. Qed.
+
+Lemma PL_rhandle d sh I r e r' : Inv sh I r -> WAR sh r -> PL sh r -> rhandle d sh r e = Some r' -> PL sh r'.
+Proof.
+  intros Hi Hwa HP H. pose proof (i_live _ _ _ Hi) as Hl. destruct Hwa as [Hwa|[Hw _]]; [contradiction|]. unfold rhandle in H.
+  assert (Hs : forall s', s_img s' = s_img (r_s r) -> s_ph s' = s_ph (r_s r) -> PL sh (with_s r s')).
+  { intros s' E1 E2. unfold PL. cbn [r_s with_s]. rewrite E1, E2. exact HP. }
+  destruct e as [a|a o|o stt n ok rs|snap|fin].
+  - assert (H' : option_map (with_s r) (handle sh (r_s r) (EvStart a)) = Some r') by (destruct (r_ph r); [contradiction|exact H..]).
+    apply option_map_some in H' as (s' & H' & ->). simpl in H'. destruct (released (r_s r)); [discriminate|].
+    destruct (h_start_spec _ _ _ _ H') as [Ei Hs']. apply Hs; [exact Ei|].
+    destruct a as [[|b] g i|b q i]; [apply Hs'|apply Hs'|destruct Hs' as [_ (k & Hm)]; apply Hm].
+  - assert (H' : option_map (with_s r) (handle sh (r_s r) (EvEnd a o)) = Some r') by (destruct (r_ph r); [contradiction|exact H..]).
+    apply option_map_some in H' as (s' & H' & ->). simpl in H'.
+    destruct (h_end_spec _ _ _ _ _ H') as [Ei [Hk|(b & q & i & k & _ & _ & Hm)]]; (apply Hs; [exact Ei|]); [apply Hk|apply Hm].
+  - assert (H' : r_write sh r o stt n ok rs = Some r') by (destruct (r_ph r); [contradiction|exact H..]). clear H.
+    assert (Hrl : released (r_s r) = false) by (unfold r_write in H'; destruct (released (r_s r)); [discriminate|reflexivity]).
+    assert (Hfin : forall o0 c r2, (forall o', mget r2 o' = mupd (mget r) o0 c o') ->
+                   (forall g, o0 <> OChecks SPlan g) -> (forall b, o0 <> OBlock b) ->
+                   final sh (mst (mget r2)) = final sh (mst (mget r))).
+    { intros o0 c r2 Em N1 N2. rewrite (final_ext sh (mst (mupd (mget r) o0 c)) _) by (intros; unfold mst; now rewrite Em).
+      now apply final_mupd. }
+    destruct (obj_eqb o OPlan) eqn:Eo.
+    + (* the plan *)
+      apply obj_eqb_eq in Eo. subst o. unfold r_write in H'. rewrite Hrl in H'. cbn [obj_in_shape negb orb] in H'.
+      assert (Hno : forall n0 ok0, (n0, ok0) <> (0, false) -> h_write sh (r_s r) OPlan stt n0 ok0 rs = None).
+      { intros n0 ok0 Hne. unfold h_write. cbn [obj_in_shape negb]. destruct n0; [destruct ok0; [reflexivity|now elim Hne]|reflexivity]. }
+      destruct n as [|n]; [destruct ok|]; try (rewrite Hno in H' by discriminate; discriminate).
+      destruct (in_plan_end r) eqn:Epe.
+      * apply option_map_some in H' as (r1 & E & ->). unfold r_plan_final in E.
+        destruct (pphase_eqb (s_ph (r_s r)) PEnd && is_terminal stt && negb (is_terminal (ist (s_img (r_s r)) OPlan))
+                  && status_eqb stt (fst (final sh (mst (mget r)))) && reason_eqb rs (snd (final sh (mst (mget r))))) eqn:G; [|discriminate].
+        injection E as <-.
+        apply andb_true_iff in G as [G _]. apply andb_true_iff in G as [G G4]. apply andb_true_iff in G as [G _].
+        apply andb_true_iff in G as [G1 _]. apply pphase_eqb_true in G1. apply status_eqb_eq in G4.
+        rewrite commit_eq. unfold PL. cbn [r_s with_mem with_s]. intros _. split; [left; exact G1|].
+        rewrite (Hfin OPlan (wcell stt 0 false) _ (fun o' => mget_write _ _ _ _ o')) by discriminate.
+        unfold mst at 1. rewrite mget_write, mupd_same. exact G4.
+      * apply option_map_some in H' as (s' & Hw' & ->).
+        destruct (h_write_spec _ _ _ _ _ _ _ _ Hw') as (_ & Ei & _).
+        destruct (h_write_plan _ _ _ _ _ _ _ Hw') as [[Hps ->]|[Hpe _]].
+        -- unfold PL. cbn [r_s with_mem with_s]. rewrite Ei. intro Ht. unfold ist in Ht. rewrite iget_iset_same in Ht. discriminate.
+        -- unfold in_plan_end in Epe. rewrite Hpe in Epe. discriminate.
+    + assert (Hne : o <> OPlan) by (intro E; subst o; rewrite (proj2 (obj_eqb_eq _ _) eq_refl) in Eo; discriminate).
+      destruct (r_write_cases _ _ _ _ _ _ _ _ H') as [Hshape [(s' & Hw' & ->)|[(b & q & b1 & qs & rest & -> & -> & Hph & Hq & Hu & ->)|[-> _]]]];
+        [| |now elim Hne].
+      * (* a write the engine's handlers take *)
+        destruct (h_write_spec _ _ _ _ _ _ _ _ Hw') as (_ & Ei & He). pose proof (write_effect_ctl _ _ _ _ _ He) as (Ep & _).
+        unfold PL. cbn [r_s with_mem with_s]. rewrite Ei, Ep. intro Ht.
+        unfold ist in Ht. rewrite iget_iset_other in Ht by (intro E; now apply Hne). destruct (HP Ht) as [Hph Heq].
+        split; [exact Hph|]. destruct Hph as [Hpe|Hpr]; [|unfold released in Hrl; rewrite Hpr in Hrl; discriminate].
+        destruct (end_write_inputs _ _ _ _ _ _ _ _ Hw' Hpe (W_end_idle _ Hw Hpe)) as [N1 N2].
+        rewrite (Hfin o (wcell stt n ok) _ (fun o' => mget_write _ _ _ _ o') N1 N2).
+        unfold mst at 1. rewrite mget_write, mupd_other by exact Hne. exact Heq.
+      * (* execSeq of a resumed sequence *)
+        rewrite commit_eq. unfold PL. cbn [r_s with_mem with_s]. intro Ht. unfold ist, put in Ht. cbn in Ht.
+        destruct (HP Ht) as [Hph' Heq]. split; [exact Hph'|].
+        rewrite (Hfin (OSeq b q) (wcell Running n ok) _ (fun o' => mget_write _ _ _ _ o')) by discriminate.
+        unfold mst at 1. rewrite mget_write, mupd_other by discriminate. exact Heq.
+  - assert (H' : option_map (with_s r) (h_read sh (r_s r) snap) = Some r') by (destruct (r_ph r); [contradiction|exact H..]).
+    apply option_map_some in H' as (s' & H' & ->). unfold h_read in H'.
+    assert (s' = r_s r) as -> by (destruct (s_fin (r_s r)); [destruct (images_agree _ _ _); [|discriminate]|]; now injection H' as <-).
+    now apply Hs.
+  - assert (H' : r_release d sh r fin = Some r') by (destruct (r_ph r); [contradiction|exact H..]). clear H.
+    unfold r_release in H'. destruct (r_ph r) eqn:Ep; [contradiction|discriminate|].
+    destruct (all_flushed sh r && quiet d sh (r_I r) (mget r)); [|discriminate].
+    apply option_map_some in H' as (s' & H & ->). unfold h_release in H.
+    match type of H with (if ?c then _ else _) = _ => destruct c; [|discriminate] end. injection H as <-.
+    unfold PL. cbn. intro Ht. destruct (HP Ht) as [_ Heq]. split; [now right|exact Heq].
 Qed.
